@@ -10,7 +10,7 @@ _T = "TornadoModel.C20."
 THEOREMS = [_T + n for n in [
     "expr_uses_owner_file_autoescape", "genO_expr", "genO_include", "only_raw_escapes_the_filter",
     "safe_escape", "escaped_output_safe", "unescaped_only_if_raw_or_none", "interp_expr", "autoescape_file_local",
-    "utf8_escape_comm", "expr_bytes_type_blind", "number_not_exempt",
+    "utf8_escape_comm", "expr_bytes_type_blind", "number_not_exempt", "strict_render_safe",
 ]]
 TRUSTED = [
     "html.escape (via escape.xhtml_escape) replaces exactly & < > \" ' — modelled as xhtmlEscape and compared on every "
@@ -36,14 +36,19 @@ RULE = ("loaders whose parent/child/included files carry different autoescape se
         "non-trivial = at least two files with different settings or an expression inside include/block/apply")
 EXHAUSTIVE = {"quick": False, "thorough": False}
 CLAUSE_CAVEATS = [
-    'for included / inherited / applied blocks the theorem is about which escape function wraps each expression in the GENERATED CODE (expr_uses_owner_file_autoescape); that the emitted OUTPUT is escaped there is decided by the tie',
-    "interp_expr, expr_bytes_type_blind, number_not_exempt, genO_expr are definitional unfoldings; the content for 'whatever its type' is escaped_output_safe plus the value-kind enumeration of the tie",
+    'for included / inherited / applied blocks the OUTPUT statement (strict_render_safe: every run over a strict loader emits only escaped data, any environment) is about the direct interpreter C19 Spec.render, which the render stream ties to Template.generate(); that the GENERATED CODE computes the interpreter\'s output is proved in C19 only on the fragment `frag` (no include/block/apply) and decided by the tie elsewhere; for the generated code itself the theorem is expr_uses_owner_file_autoescape (which escape function wraps each expression)',
+    "interp_expr, expr_bytes_type_blind, number_not_exempt, genO_expr are definitional unfoldings; the content for 'whatever its type' is escaped_output_safe + strict_render_safe (all environments) plus the value-kind enumeration of the tie: the model's Atom has no 'number with arbitrary text' constructor, such values are the model's `obj` by the tie (VALUE_KINDS)",
 ]
 CLAUSES = {
     "the output of every expression tag contains the value only in escaped form, whatever its type or content":
         "escaped_output_safe, safe_escape, utf8_escape_comm, interp_expr, expr_bytes_type_blind, number_not_exempt "
         "(no type other than str/bytes has a path of its own: numbers and their subclasses go through str() + escape)",
-    "including inside included, inherited and applied blocks": "expr_uses_owner_file_autoescape (gen = genO), genO_include",
+    "including inside included, inherited and applied blocks":
+        "strict_render_safe (run level, OUTPUT of the direct interpreter: in a loader whose files are strict - no raw/module, no markup in "
+        "literal text, expression tags only in escaping files, apply only with escape-preserving functions - every successful run "
+        "through include / extends+block / apply / loops / try emits safe bytes, for every environment; the Lean counterpart of the "
+        "`strict` oracle) + expr_uses_owner_file_autoescape (generated code: gen = genO), genO_include; generated code == interpreter "
+        "on these constructs: tie only (render stream)",
     "only raw tags, modules and an explicit autoescape None emit values unescaped":
         "only_raw_escapes_the_filter, unescaped_only_if_raw_or_none",
     "an autoescape setting in one file never changes another file": "autoescape_file_local + expr_uses_owner_file_autoescape",
@@ -346,6 +351,8 @@ def spec_requests(case, impl):
     reqs = [line(ID, "render", case["ws"], case["ae"], case["entry"], case["files"], c19.env_wire(wire_env(case["env"])))]
     if impl["render"][0] == "out":
         reqs.append(line(ID, "safe", bytes.fromhex(impl["render"][1])))
+        # hypothesis of strict_render_safe, decided by the Lean definition (Spec.strictFile on every loaded file)
+        reqs.append(line(ID, "strict", case["ws"], case["ae"], case["entry"], case["files"]))
     return reqs
 
 
@@ -375,7 +382,8 @@ def spec_violation(case, impl, replies):
     want = c19.norm_reply(replies[0])
     if got[0] == "out":
         out = bytes.fromhex(got[1])
-        if case["strict"] and c19.norm_reply(replies[1])[0] != "T":
+        lean_strict = len(replies) > 2 and c19.norm_reply(replies[2])[0] == "T"
+        if (case["strict"] or lean_strict) and c19.norm_reply(replies[1])[0] != "T":
             return "strict loader (every file escapes, no raw): output contains unescaped markup: %r" % _unsafe_excerpt(out)
         if STR_HOOK.encode() in out:
             return "__str__ of a str/bytes subclass reached the output: %r" % _around(out, STR_HOOK.encode())
